@@ -1033,4 +1033,298 @@ example : (run w0 hist).exec b0 (.recv (pkt "channel-0" "channel-10" (.native "u
     = .ok (run w0 hist, { ack := some .error, sub := none }) :=
   bad_packets_release_nothing_total _ _ _ _ _ _ (Or.inr (Or.inr (Or.inr (Or.inr ⟨_, _, _, rfl, by decide⟩))))
 
+/-! ## Denominations that are no real token never pay -/
+
+theorem payout_some_token {w w' : World} {sub : SubMsg} {tv f : Bool} {t : Addr} (hp : w.payout sub tv f = some w')
+    (hd : sub.denom = .cw20 t) : w.tokens.contains t = true := by
+  unfold World.payout at hp
+  rw [hd] at hp
+  simp only at hp
+  split at hp
+  · cases hp
+  · rename_i hc
+    simp at hc
+    simpa using hc.1.1
+
+/-- One transaction never books a payout under a cw20 denomination whose address is not a token contract
+that exists. -/
+theorem update_paidOut_nontoken {w w' : World} {g : Ghost} {blk : Block} {op : Op} {o : Outcome}
+    (h : w.exec blk op = .ok (w', o)) {c : String} {t : Addr} (ht : w.tokens.contains t = false) :
+    (g.update w' op o).paidOut (c, .cw20 t) = g.paidOut (c, .cw20 t) := by
+  have nopay : ∀ {s1 : State} {sub : SubMsg} {tv f : Bool} {w2 : World},
+      ({ w with st := s1 } : World).payout sub tv f = some w2 → sub.denom ≠ .cw20 t := by
+    intro s1 sub tv f w2 hp hd
+    have := payout_some_token hp hd
+    simp only [ht] at this
+    cases this
+  cases op with
+  | connect id v cv ord peer => rfl
+  | chanOpen v cv ord => rfl
+  | chanClose id => rfl
+  | allow snd c' gg => rfl
+  | updateAdmin snd a => rfl
+  | migrate gas => rfl
+  | transferNative snd funds msg => simp only [Ghost.update]; split <;> rfl
+  | sendCw20 snd token amt msg => simp only [Ghost.update]; split <;> rfl
+  | hook snd funds sender amt msg => simp only [Ghost.update]; split <;> rfl
+  | recv p rv tv f =>
+    rcases exec_recv_cases h with ⟨_, _, ha, hsub⟩ | ⟨s1, sub, hd, hsub, hc⟩
+    · simp only [Ghost.update, ha, hsub]
+    · rcases hc with ⟨hp, ha⟩ | ⟨_, ha, _⟩
+      · simp only [Ghost.update, ha, hsub, bump_apply]
+        split
+        · rename_i hk; exact absurd (Prod.mk.inj hk).2.symm (nopay hp)
+        · rfl
+      · simp only [Ghost.update, ha, hsub]
+  | ack chan data ackOk sv tv f =>
+    rcases exec_ack_cases h with ⟨rfl, _, _, _⟩ | ⟨rfl, s1, sub, hf, _, hc⟩
+    · cases data <;> rfl
+    · obtain ⟨p, ch, rfl, _, _, _, _, hsd, _⟩ := onPacketFailure_spec hf
+      rcases hc with ⟨hp, ha⟩ | ⟨_, _, ha⟩
+      · simp only [Ghost.update, Ghost.failure, ha, bump_apply]
+        split
+        · rename_i hk; exact absurd (hsd.trans (Prod.mk.inj hk).2.symm) (nopay hp)
+        · rfl
+      · simp only [Ghost.update, Ghost.failure, ha]
+  | timeout chan data sv tv f =>
+    obtain ⟨s1, sub, hf, _, hc⟩ := exec_timeout_cases h
+    obtain ⟨p, ch, rfl, _, _, _, _, hsd, _⟩ := onPacketFailure_spec hf
+    rcases hc with ⟨hp, ha⟩ | ⟨_, _, ha⟩
+    · simp only [Ghost.update, Ghost.failure, ha, bump_apply]
+      split
+      · rename_i hk; exact absurd (hsd.trans (Prod.mk.inj hk).2.symm) (nopay hp)
+      · rfl
+    · simp only [Ghost.update, Ghost.failure, ha]
+
+theorem runU_paidOut_nontoken {wg : World × Ghost} (ops : List (Block × Op)) {c : String} {t : Addr}
+    (h1 : wg.1.tokens.contains t = false) (h0 : wg.2.paidOut (c, .cw20 t) = 0) :
+    (runU wg ops).2.paidOut (c, .cw20 t) = 0 := by
+  induction ops generalizing wg with
+  | nil => exact h0
+  | cons op rest ih =>
+    apply ih (wg := stepU wg op.1 op.2)
+    · rw [stepU_fst, (step_self_tokens wg.1 op.1 op.2).2]; exact h1
+    · unfold stepU
+      cases hx : wg.1.exec op.1 op.2 with
+      | error e => exact h0
+      | ok r => obtain ⟨w', o⟩ := r; simp only; rw [update_paidOut_nontoken hx h1]; exact h0
+
+theorem runG_paidOut_nontoken {wg : World × Ghost} (ops : List (Block × Op)) {c : String} {t : Addr}
+    (h1 : wg.1.tokens.contains t = false) (h0 : wg.2.paidOut (c, .cw20 t) = 0) :
+    (runG wg ops).2.paidOut (c, .cw20 t) = 0 := by
+  induction ops generalizing wg with
+  | nil => exact h0
+  | cons op rest ih =>
+    apply ih (wg := stepG wg op.1 op.2)
+    · rw [(stepG_self_tokens wg op.1 op.2).2]; exact h1
+    · unfold stepG
+      split
+      · cases hx : wg.1.exec op.1 op.2 with
+        | error e => exact h0
+        | ok r => obtain ⟨w', o⟩ := r; simp only; rw [update_paidOut_nontoken hx h1]; exact h0
+      · exact h0
+
+/-- **C11, non-token denominations never pay** (why it is harmless that a direct `Receive` hook call — from
+an account that is no token contract — is booked as "escrowed" although it moves nothing): on every
+history, filtered or not, nothing is ever paid out under a denomination `cw20:<t>` whose `t` is not a
+token contract that exists; whatever such a call books can only be swallowed or stay outstanding. -/
+theorem nontoken_never_pays (w : World) (ops : List (Block × Op)) (c : String) (t : Addr)
+    (ht : w.tokens.contains t = false) :
+    (runU (w, Ghost.init w) ops).2.paidOut (c, .cw20 t) = 0 ∧ (runG (w, Ghost.init w) ops).2.paidOut (c, .cw20 t) = 0 :=
+  ⟨runU_paidOut_nontoken ops ht rfl, runG_paidOut_nontoken ops ht rfl⟩
+
+/-- "mallory" is no token contract of `w0`: her direct hook call is booked, and nothing is ever paid for it -/
+example : w0.tokens.contains "mallory" = false := by decide
+
+/-! ## Exact conservation: the contract's holdings change only by escrow and by payouts that went through -/
+
+/-- Tokens of denomination `x` a successful transaction brought into the contract: the packet amount of an
+accepted native transfer or cw20 `Send` of that denomination (a direct hook call brings nothing). -/
+def escrowNow (op : Op) (o : Outcome) (x : Denom) : Nat :=
+  match op with
+  | .transferNative .. | .sendCw20 .. =>
+    (match o.sent with
+     | [out] => if out.packet.denom = x then out.packet.amount else 0
+     | _ => 0)
+  | _ => 0
+
+/-- Tokens of denomination `x` that left the contract in a successful transaction: the amount of its
+sub-message if the sub-call went through (success acknowledgement of an incoming packet; no error data for
+a refund) and the recipient is not the contract itself. -/
+def paidNow (self : Addr) (op : Op) (o : Outcome) (x : Denom) : Nat :=
+  match o.sub with
+  | none => 0
+  | some sub =>
+    let went : Bool := match op with
+      | .recv .. => o.ack == some .success
+      | _ => o.ack == none
+    if went = true ∧ sub.denom = x ∧ sub.to ≠ self then sub.amount else 0
+
+/-- Exact version of `payout_holdings`. -/
+theorem payout_holdings_eq {w w' : World} {sub : SubMsg} {tv f : Bool} (hp : w.payout sub tv f = some w')
+    (x : Denom) (h : Nat) (hx : w.holdings x = some h) :
+    ∃ h', w'.holdings x = some h' ∧ h' + (if sub.denom = x ∧ sub.to ≠ w.self then sub.amount else 0) = h := by
+  obtain ⟨_, hself, htok, _⟩ := payout_frame hp
+  unfold World.payout at hp
+  split at hp
+  · rename_i dn hden
+    split at hp
+    · simp at hp
+    · obtain ⟨hle, hb⟩ := bankSend_spec hp
+      have htk := (bankSend_frame hp).2.1
+      cases x with
+      | native y =>
+        simp only [World.holdings] at hx ⊢
+        simp at hx
+        refine ⟨_, rfl, ?_⟩
+        rw [hself, hb w.self y, hden]
+        by_cases hy : dn = y
+        · subst hy
+          by_cases hto : sub.to = w.self
+          · simp [hto]; omega
+          · simp [hto]; omega
+        · have : ¬ Denom.native dn = Denom.native y := by intro e; cases e; exact hy rfl
+          simp [hy, this]; exact hx
+      | cw20 t =>
+        simp only [World.holdings, htok, hself] at hx ⊢
+        split at hx
+        · rename_i hc
+          simp at hx
+          refine ⟨h, ?_, ?_⟩
+          · simp only [hc, if_true, World.tokBal, htk]; simp only [World.tokBal] at hx; rw [hx]
+          · rw [hden]; simp
+        · simp at hx
+  · rename_i t0 hden
+    split at hp
+    · simp at hp
+    · obtain ⟨hle, hb⟩ := tokSend_spec hp
+      have hbk := (tokSend_frame hp).2.1
+      cases x with
+      | native y =>
+        simp only [World.holdings] at hx ⊢
+        simp at hx
+        refine ⟨h, by simp [World.bankBal, hbk, hself]; exact hx, ?_⟩
+        rw [hden]; simp
+      | cw20 t =>
+        simp only [World.holdings, htok, hself] at hx ⊢
+        split at hx
+        · rename_i hc
+          simp at hx
+          simp only [hc, if_true]
+          refine ⟨_, rfl, ?_⟩
+          rw [hb t w.self, hden]
+          by_cases ht : t0 = t
+          · subst ht
+            by_cases hto : sub.to = w.self
+            · simp [hto]; omega
+            · simp [hto]; omega
+          · have : ¬ Denom.cw20 t0 = Denom.cw20 t := by intro e; cases e; exact ht rfl
+            simp [ht, this]; exact hx
+        · simp at hx
+
+/-- **C11, exact conservation per transaction** (strengthens solvency's `≥` to an equation on the token
+side): for every denomination that exists, `holdings' + paidNow = holdings + escrowNow` — the contract's
+real holdings change only by the escrow of an accepted transfer and by a payout / refund sub-message that
+went through to somebody else; no other transaction (governance, migration, handshake, refused packet,
+swallowed refund, direct hook call) moves a single token of the contract. -/
+theorem exec_conservation {w w' : World} {blk : Block} {op : Op} {o : Outcome} (h : w.exec blk op = .ok (w', o))
+    (x : Denom) (v : Nat) (hx : w.holdings x = some v) :
+    ∃ v', w'.holdings x = some v' ∧ v' + paidNow w.self op o x = v + escrowNow op o x := by
+  have same : ∀ {w2 : World}, w2.bank = w.bank → w2.tok = w.tok → w2.self = w.self → w2.tokens = w.tokens →
+      w2.holdings x = some v := by
+    intro w2 e2 e3 e4 e5; rw [holdings_congr e2 e3 e4 e5 x]; exact hx
+  cases op with
+  | connect id v' cv ord peer =>
+    obtain ⟨_, e2, e3, e4, e5, _, _, hsub, _⟩ := exec_plain_frame h (Or.inl ⟨id, v', cv, ord, peer, rfl⟩)
+    exact ⟨v, same e2 e3 e4 e5, by simp [paidNow, escrowNow, hsub]⟩
+  | chanOpen v' cv ord => obtain ⟨rfl, rfl⟩ := exec_chanOpen h; exact ⟨v, hx, by simp [paidNow, escrowNow]⟩
+  | chanClose id => exact (exec_chanClose h).elim
+  | allow snd c gg =>
+    obtain ⟨_, e2, e3, e4, e5, _, _, hsub, _⟩ := exec_plain_frame h (Or.inr (Or.inl ⟨snd, c, gg, rfl⟩))
+    exact ⟨v, same e2 e3 e4 e5, by simp [paidNow, escrowNow, hsub]⟩
+  | updateAdmin snd a =>
+    obtain ⟨_, e2, e3, e4, e5, _, _, hsub, _⟩ := exec_plain_frame h (Or.inr (Or.inr ⟨snd, a, rfl⟩))
+    exact ⟨v, same e2 e3 e4 e5, by simp [paidNow, escrowNow, hsub]⟩
+  | migrate gg =>
+    obtain ⟨_, e2, e3, e4, e5, _, hsub, _⟩ := exec_migrate_frame h
+    exact ⟨v, same e2 e3 e4 e5, by simp [paidNow, escrowNow, hsub]⟩
+  | transferNative snd funds msg =>
+    obtain ⟨d, amt, w1, s, out, _, hself, hb, hs', rfl, rfl⟩ := exec_transferNative_spec h
+    obtain ⟨ch, _, _, _, _, _, _, rfl, _⟩ := execTransfer_spec hs'
+    refine ⟨v + (if Denom.native d = x then amt else 0), ?_, by simp [paidNow, escrowNow]⟩
+    rw [holdings_st, bankSend_holdings hself hb x, hx]; rfl
+  | sendCw20 snd token amt msg =>
+    obtain ⟨w1, m, s, out, hself, _, hb, _, hs', rfl, rfl⟩ := exec_sendCw20_spec h
+    obtain ⟨ch, _, _, _, _, _, _, rfl, _⟩ := execTransfer_spec hs'
+    refine ⟨v + (if Denom.cw20 token = x then amt else 0), ?_, by simp [paidNow, escrowNow]⟩
+    rw [holdings_st, tokSend_holdings hself hb x, hx]; rfl
+  | hook snd funds sender amt msg =>
+    obtain ⟨m, s, out, _, _, _, rfl, rfl⟩ := exec_hook_spec h
+    exact ⟨v, by rw [holdings_st]; exact hx, by simp [paidNow, escrowNow]⟩
+  | recv p rv tv f =>
+    rcases exec_recv_cases h with ⟨_, rfl, _, hsub⟩ | ⟨s1, sub, hd, hsub, hc⟩
+    · exact ⟨v, hx, by simp [paidNow, escrowNow, hsub]⟩
+    · rcases hc with ⟨hp, ha⟩ | ⟨_, ha, ra, ch2, _, _, rfl⟩
+      · obtain ⟨v', h1, h2⟩ := payout_holdings_eq hp x v (by rw [holdings_st]; exact hx)
+        refine ⟨v', h1, ?_⟩
+        simp only [paidNow, escrowNow, hsub, ha, beq_self_eq_true, true_and]
+        exact h2
+      · exact ⟨v, by rw [holdings_st]; exact hx, by simp [paidNow, escrowNow, hsub, ha]⟩
+  | ack chan data ackOk sv tv f =>
+    rcases exec_ack_cases h with ⟨_, rfl, _, hsub⟩ | ⟨_, s1, sub, hf, hsub, hc⟩
+    · exact ⟨v, hx, by simp [paidNow, escrowNow, hsub]⟩
+    · rcases hc with ⟨hp, ha⟩ | ⟨_, rfl, ha⟩
+      · obtain ⟨v', h1, h2⟩ := payout_holdings_eq hp x v (by rw [holdings_st]; exact hx)
+        refine ⟨v', h1, ?_⟩
+        simp only [paidNow, escrowNow, hsub, ha, beq_self_eq_true, true_and]
+        exact h2
+      · exact ⟨v, by rw [holdings_st]; exact hx, by simp [paidNow, escrowNow, hsub, ha]⟩
+  | timeout chan data sv tv f =>
+    obtain ⟨s1, sub, hf, hsub, hc⟩ := exec_timeout_cases h
+    rcases hc with ⟨hp, ha⟩ | ⟨_, rfl, ha⟩
+    · obtain ⟨v', h1, h2⟩ := payout_holdings_eq hp x v (by rw [holdings_st]; exact hx)
+      refine ⟨v', h1, ?_⟩
+      simp only [paidNow, escrowNow, hsub, ha, beq_self_eq_true, true_and]
+      exact h2
+    · exact ⟨v, by rw [holdings_st]; exact hx, by simp [paidNow, escrowNow, hsub, ha]⟩
+
+/-- Σ over a history of what its successful transactions escrowed resp. paid out of denomination `x`. -/
+def escrowTotal (w : World) : List (Block × Op) → Denom → Nat
+  | [], _ => 0
+  | (blk, op) :: rest, x =>
+    (match w.exec blk op with | .ok (_, o) => escrowNow op o x | .error _ => 0) + escrowTotal (w.step blk op) rest x
+
+def paidTotal (w : World) : List (Block × Op) → Denom → Nat
+  | [], _ => 0
+  | (blk, op) :: rest, x =>
+    (match w.exec blk op with | .ok (_, o) => paidNow w.self op o x | .error _ => 0) + paidTotal (w.step blk op) rest x
+
+/-- **C11, conservation over histories**: for every denomination that exists, on every history,
+`holdings_end + Σ paid out = holdings_start + Σ escrowed` — tokens enter the contract only with accepted
+transfers and leave it only through payout / refund sub-messages that went through. -/
+theorem conservation (w : World) (ops : List (Block × Op)) (x : Denom) (v : Nat) (hx : w.holdings x = some v) :
+    ∃ v', (run w ops).holdings x = some v' ∧ v' + paidTotal w ops x = v + escrowTotal w ops x := by
+  induction ops generalizing w v with
+  | nil => exact ⟨v, hx, rfl⟩
+  | cons op rest ih =>
+    obtain ⟨blk, op⟩ := op
+    simp only [run, List.foldl_cons, paidTotal, escrowTotal]
+    cases hxe : w.exec blk op with
+    | error e =>
+      have hw : w.step blk op = w := by unfold World.step; rw [hxe]
+      rw [hw]
+      obtain ⟨v', h1, h2⟩ := ih w v hx
+      exact ⟨v', h1, by simp only [run] at h2 ⊢; omega⟩
+    | ok r =>
+      obtain ⟨w', o⟩ := r
+      have hw : w.step blk op = w' := by unfold World.step; rw [hxe]
+      rw [hw]
+      obtain ⟨v1, h1, h2⟩ := exec_conservation hxe x v hx
+      obtain ⟨v', h3, h4⟩ := ih w' v1 h1
+      exact ⟨v', h3, by simp only at h2 ⊢; omega⟩
+
+/-- on the demo history: 90 uatom escrowed, 45 paid out, 45 held -/
+example : escrowTotal w0 hist (.native "uatom") = 90 ∧ paidTotal w0 hist (.native "uatom") = 45 ∧
+    (run w0 hist).holdings (.native "uatom") = some 45 ∧ w0.holdings (.native "uatom") = some 0 := by decide
+
 end CwPlus.Props.C11
